@@ -327,6 +327,34 @@ func progHost(r *rand.Rand, n int) *prog {
 	return p
 }
 
+// progTail: loops written as tail calls (direct, through a table, mutually recursive).  A tail call runs in
+// constant space on both engines: 100000 iterations return a value - under every non-semantic option.
+func progTail(r *rand.Rand, n int) *prog {
+	m := wb.New()
+	ii := []byte{wb.I32, wb.I32}
+	k := int32(1 + r.Intn(9))
+	step := func(call []byte) []byte { // if n == 0 { acc } else { tail-call f(n-1, acc + n*k) }
+		return wb.Cat(wb.LocalGet(0), wb.Op(wasm.OpcodeI32Eqz), wb.Op(wasm.OpcodeIf, wb.I32), wb.LocalGet(1), wb.Op(wasm.OpcodeElse),
+			wb.LocalGet(0), wb.I32Const(1), wb.Op(wasm.OpcodeI32Sub),
+			wb.LocalGet(1), wb.LocalGet(0), wb.I32Const(k), wb.Op(wasm.OpcodeI32Mul), wb.Op(wasm.OpcodeI32Add),
+			call, wb.Op(wasm.OpcodeEnd))
+	}
+	ti := m.TypeIdx(ii, []byte{wb.I32})
+	m.AddFunc(wb.Func{Params: ii, Results: []byte{wb.I32}, Export: "direct", Body: step(wb.Cat([]byte{wasm.OpcodeTailCallReturnCall, 0}))})
+	m.AddFunc(wb.Func{Params: ii, Results: []byte{wb.I32}, Export: "indirect", Body: step(wb.Cat(wb.I32Const(1), []byte{wasm.OpcodeTailCallReturnCallIndirect}, wb.U32(ti), []byte{0}))})
+	m.AddFunc(wb.Func{Params: ii, Results: []byte{wb.I32}, Export: "ping", Body: step(wb.Cat([]byte{wasm.OpcodeTailCallReturnCall, 3}))})
+	m.AddFunc(wb.Func{Params: ii, Results: []byte{wb.I32}, Export: "pong", Body: step(wb.Cat(wb.I32Const(2), []byte{wasm.OpcodeTailCallReturnCallIndirect}, wb.U32(ti), []byte{0}))})
+	m.Table(4, nil)
+	p := &prog{Kind: "tail", Name: fmt.Sprintf("tail%d", n), Limit: 4, NFuncs: 4}
+	for _, fn := range []string{"direct", "indirect", "ping"} {
+		for _, it := range []uint64{10, 1999, 2001, 5000, 100000} {
+			p.Calls = append(p.Calls, call{fn, []uint64{it, uint64(r.Intn(100))}})
+		}
+	}
+	p.Bin = m.BytesWithSegments([]wb.Elem{{Offset: 0, Init: []int64{0, 1, 2, 3}}})
+	return p
+}
+
 func progDwarf() *prog {
 	return &prog{Kind: "dwarf", Name: "dwarf-zig", Bin: dwarftestdata.ZigWasm, Limit: 64, WASI: true, NFuncs: -1,
 		Calls: []call{{"_start", nil}}}
@@ -343,7 +371,7 @@ func programs(r *rand.Rand, thorough bool) []*prog {
 	for i := 0; i < reps; i++ {
 		ps = append(ps, progArith(r, i), progGlobals(r, i), progTable(r, i), progTraps(r, i), progHost(r, i), progRec(r, i, false))
 	}
-	ps = append(ps, progRec(r, 9, true))
+	ps = append(ps, progRec(r, 9, true), progTail(r, 0))
 	// memory: declared max absent / below / at / above the limit
 	limit := uint32(5)
 	type mm struct {
